@@ -131,7 +131,7 @@ func C11(c *core.Ctx) {
 		}
 	}
 	if rs != nil {
-		c.Floor("R11.3", "readTlvStream call sites", nSites, 3)
+		c.Floor("R11.3", "readTlvStream call sites", nSites, 2)
 	}
 }
 
